@@ -61,7 +61,10 @@ where
             let is_overall_termination = config.termination.is_termination(&mut heuristic_ctx);
             let is_initial_quota_reached = config.termination.estimate(&heuristic_ctx) > config.initial.quota;
 
-            if is_initial_quota_reached || is_overall_termination {
+            // NOTE: always build at least one solution, otherwise there is nothing to return
+            let has_solutions = idx > 0;
+
+            if has_solutions && (is_initial_quota_reached || is_overall_termination) {
                 (logger)(
                     format!(
                         "stop building initial solutions due to initial quota reached ({is_initial_quota_reached})\
